@@ -176,18 +176,59 @@ def _is_machinery(err):
             "Unknown operator", "was not found", "Attempted to", "The exception was", "In evaluation, the identifier",
             "evaluating the expression", "TLC encountered", "is not a valid", "Could not", "No file", "Cannot find",
             "The first argument of", "The second argument of", "The specification contains", "overflow",
-            "non-enumerable", "could not be", "Assumption", "Evaluating assumption", "IOEnv", "TLC was unable")
+            "non-enumerable", "could not be", "Assumption", "Evaluating assumption", "IOEnv", "TLC was unable",
+            "unparsable tuple")
     return any(k in err for k in keys)
+
+
+def _balanced(text):
+    depth = 0
+    instr = False
+    i = 0
+    while i < len(text):
+        c = text[i]
+        if instr:
+            if c == "\\":
+                i += 1
+            elif c == '"':
+                instr = False
+        elif c == '"':
+            instr = True
+        elif text.startswith("<<", i):
+            depth += 1
+            i += 1
+        elif text.startswith(">>", i):
+            depth -= 1
+            i += 1
+        i += 1
+    return depth == 0 and not instr
 
 
 def _parse_output(path, res):
     with open(path, errors="replace") as fh:
+        pending = None
         for raw in fh:
             line = raw.rstrip("\n")
+            if pending is not None:
+                # TLC pretty-prints long tuples over several lines: join until the tuple is closed
+                pending += " " + line.strip()
+                if line.rstrip().endswith(">>") and _balanced(pending):
+                    t = parse_tuple_line(pending)
+                    if t is not None:
+                        res.tuples.append(t)
+                    else:
+                        res.errors.append("Error: unparsable tuple printed by TLC: %s" % pending[:200])
+                    pending = None
+                continue
             if line.startswith("<<"):
-                t = parse_tuple_line(line)
-                if t is not None:
-                    res.tuples.append(t)
+                if line.rstrip().endswith(">>") and _balanced(line):
+                    t = parse_tuple_line(line)
+                    if t is not None:
+                        res.tuples.append(t)
+                    else:
+                        res.errors.append("Error: unparsable tuple printed by TLC: %s" % line[:200])
+                else:
+                    pending = line
                 continue
             m = _FINAL.match(line)
             if m:
